@@ -3,6 +3,7 @@ package main
 import (
 	"fmt"
 	"reflect"
+	"strings"
 
 	nject "github.com/muir/nject/v2"
 )
@@ -44,6 +45,25 @@ func readVals(declared []reflect.Type, xs []reflect.Value) []Val {
 	return out
 }
 
+// logDebugging records what an injected *Debugging says about the chain.
+func (r *caseRun) logDebugging(declared []reflect.Type, xs []reflect.Value) {
+	for i, x := range xs {
+		if declared[i] == tDebug && x.IsValid() && !x.IsNil() {
+			d := x.Interface().(*nject.Debugging)
+			r.logf("d names %s", strings.ReplaceAll(strings.Join(d.NamesIncluded, "|"), " ", "_"))
+			inc, exc := 0, 0
+			for _, l := range d.IncludeExclude {
+				if strings.HasPrefix(l, "INCLUDED: ") {
+					inc++
+				} else if strings.HasPrefix(l, "EXCLUDED: ") {
+					exc++
+				}
+			}
+			r.logf("d ie included=%d excluded=%d total=%d", inc, exc, len(d.IncludeExclude))
+		}
+	}
+}
+
 func mkValues(declared []int, vs []Val) []reflect.Value {
 	out := make([]reflect.Value, len(vs))
 	for i, v := range vs {
@@ -74,6 +94,7 @@ func (r *caseRun) injBody(p *ProvDesc) func([]reflect.Value) []reflect.Value {
 		k := p.calls
 		p.calls++
 		args := readVals(inT, in)
+		r.logDebugging(inT, in)
 		outs := make([]Val, len(p.Out))
 		for j, oc := range p.Out {
 			outs[j] = freshOut(p, oc, k, 0, j)
